@@ -157,10 +157,11 @@ impl<'a> P<'a> {
                 self.ws();
                 let lib = self.liberal;
                 let v = self.int32(lib)?;
-                if !lib && v < 0 {
-                    return Err("core: last +/- non-negative number".into());
-                }
-                return Ok(Idx::Last(if neg { v.saturating_neg() } else { v }));
+                // `last - N` / `last + N` mean what the arithmetic says, also for a signed N
+                // (`last - -2` is `last+2`); an offset that does not fit an i32 is pinned at the end
+                // of the i32 range (any array is shorter than that, so the selection is the same)
+                let off = if neg { -(v as i64) } else { v as i64 };
+                return Ok(Idx::Last(off.clamp(i32::MIN as i64, i32::MAX as i64) as i32));
             }
             self.i = save;
             return Ok(Idx::Last(0));
